@@ -20,7 +20,7 @@ import weakref
 
 _TIME_ATTRS = {"expiry", "_when", "when", "deadline", "opened_at", "t"}
 _SKIP_ATTRS = {"_loop", "loop", "net", "_source_traceback", "_log_traceback",
-               "_log_destroy_pending", "log", "_mismatch_logged", "written"}
+               "_log_destroy_pending", "log", "_mismatch_logged", "written", "_held", "_undelivered"}
 
 
 class Canon:
